@@ -66,6 +66,45 @@ def instantiate(q, bound):
     return [q]
 
 
+def index_guarded(q):
+    """Is every universally quantified variable of the fact q confined to an index range (lo <= v, v < hi)?
+    Only then do the instances at 0..K-1 (with all sequence lengths <= K) cover the whole quantifier, and a model of
+    the instances is a model of the fact.  Quantifiers over keys / identifiers are not covered by instances."""
+    if z3.is_quantifier(q):
+        if not q.is_forall():
+            return False
+        n = q.num_vars()
+        body = q.body()
+        if not (z3.is_implies(body)):
+            return False
+        guard = body.arg(0)
+        conj = list(guard.children()) if z3.is_and(guard) else [guard]
+        lower, upper = set(), set()
+        for c in conj:
+            if c.num_args() != 2:
+                continue
+            a, b = c.arg(0), c.arg(1)
+            k = c.decl().kind()
+            if k in (z3.Z3_OP_LE, z3.Z3_OP_LT):
+                if z3.is_var(b):
+                    lower.add(z3.get_var_index(b))
+                if z3.is_var(a):
+                    upper.add(z3.get_var_index(a))
+            elif k in (z3.Z3_OP_GE, z3.Z3_OP_GT):
+                if z3.is_var(a):
+                    lower.add(z3.get_var_index(a))
+                if z3.is_var(b):
+                    upper.add(z3.get_var_index(b))
+        if not all(i in lower and i in upper for i in range(n)):
+            return False
+        return index_guarded(body.arg(1)) if has_quantifier(body.arg(1)) else True
+    if z3.is_and(q):
+        return all(index_guarded(ch) for ch in q.children())
+    if z3.is_implies(q) and not has_quantifier(q.arg(0)):
+        return index_guarded(q.arg(1))
+    return not has_quantifier(q)
+
+
 class PyRaise(Exception):
     """A Python exception raised by the analysed code. `cls` is a class name (str)."""
 
@@ -375,6 +414,8 @@ class Ctx:
         counterexample among small instances (all sequences of length <= K and every quantified
         fact instantiated at all indices 0..K-1)."""
         s = self.solver
+        closures = getattr(self, "closures", {})
+        covered = all(index_guarded(q) or q.get_id() in closures for q in self.qfacts)
         for bound in (2, 4):
             s.push()
             try:
@@ -382,12 +423,22 @@ class Ctx:
                 for ln in self.seq_lens:
                     s.add(ln <= bound)
                 for q in self.qfacts:
+                    if q.get_id() in closures and not index_guarded(q):
+                        for inst in closures[q.get_id()](bound):
+                            s.add(inst)
+                        continue
                     for inst in instantiate(q, bound):
                         s.add(inst)
                 s.set("timeout", 5000)
                 r = s.check()
                 if r == z3.sat:
-                    return "refuted", self.engine.extract_model(self, s.model()), f"z3 (instances, len<={bound})"
+                    if covered:
+                        return "refuted", self.engine.extract_model(self, s.model()), f"z3 (instances, len<={bound})"
+                    # some fact quantifies over keys, which instances do not cover: the model is only a candidate -
+                    # it counts if the native replay reproduces it, never by itself
+                    self.candidate = (self.engine.extract_model(self, s.model()),
+                                      f"z3 (candidate from instances len<={bound}; facts quantified over keys not covered)")
+                    return None
             finally:
                 s.set("timeout", self.timeout_ms)
                 s.pop()
@@ -436,8 +487,13 @@ class Ctx:
                 return "valid", None, "z3"
             if r == z3.sat:
                 return "refuted", self.engine.extract_model(self, s.model()), "z3"
-            return self.engine.second_opinion(self, s)
+            st, mdl, be = self.engine.second_opinion(self, s)
+            cand = getattr(self, "candidate", None)
+            if st == "unknown" and mdl is None and cand is not None:
+                return "unknown", cand[0], cand[1]
+            return st, mdl, be
         finally:
+            self.candidate = None
             s.set("timeout", self.timeout_ms)
             s.pop()
 
